@@ -65,6 +65,47 @@ inductive Body where
   | utf16        -- UTF-16 text with a byte-order mark
 deriving Repr, DecidableEq
 
+/-- What the JSON text of a HEALTHY 200 reply looks like on the wire.  The client must return the same result for all
+    of them: `Content-Length` counts bytes, `JSONTarget.close` joins the chunks and decodes them as UTF-8 once. -/
+inductive OkText where
+  | ascii        -- 7-bit only: what the bundled server (stdlib json, `ensure_ascii=True`, short strings) sends
+  | rawUtf8      -- 2-, 3- and 4-byte characters sent raw (`ensure_ascii=False`, orjson, ujson, …): bytes ≠ characters
+  | escaped      -- the same characters as `\uXXXX` escapes (surrogate pairs included)
+  | mixed        -- raw and escaped characters in one document
+  | spaced       -- indented, with line feeds and blanks around the document, raw characters
+  | huge         -- tens of KiB of raw multi-byte text: many reads, characters straddling the read boundaries
+  | gzip         -- the raw document gzip-compressed, announced by `Content-Encoding: gzip` (the client asks for it)
+deriving Repr, DecidableEq
+
+/-- A 200 reply whose body is NOT JSON text.  The JSON-shaped ones carry the damage inside the result: a client that
+    returns anything for them has made the value up. -/
+inductive BadText where
+  | html         -- an HTML page (valid UTF-8, not JSON)
+  | latin1       -- the document encoded in ISO-8859-1 (`caf\xe9`): not UTF-8
+  | cutChar      -- a multi-byte character cut in half inside a string
+  | loneCont     -- a lone continuation byte inside a string
+  | overlong     -- an over-long encoding (`\xc0\xaf`)
+  | binary       -- arbitrary bytes
+  | gzipBare     -- gzip-compressed bytes without `Content-Encoding`
+  | trailing     -- a complete document followed by bytes that are not UTF-8
+deriving Repr, DecidableEq
+
+/-- How a 200 reply is framed. -/
+inductive Framing where
+  | length       -- Content-Length (in bytes), keep-alive
+  | noLength     -- no length header: the body ends when the peer closes
+  | chunked      -- chunked transfer encoding, keep-alive
+  | lengthClose  -- Content-Length and `Connection: close`: the peer closes afterwards
+deriving Repr, DecidableEq
+
+/-- Whether the connection survives the reply (otherwise http.client hands the socket to the response — `will_close` —
+    and the cached HTTPConnection reconnects on its next use). -/
+def Framing.keeps : Framing → Bool
+  | .length => true
+  | .chunked => true
+  | .noLength => false
+  | .lengthClose => false
+
 /-- The two places where harmless variants of `single_request` differ (read from the source by the extractor). -/
 structure Lib where
   drain : Bool        -- `if response.getheader("content-length", 0): response.read()`
@@ -150,6 +191,10 @@ inductive Beh where
                            -- header), connection kept alive
   | statusLenClose (code : ErrCode) (body : Body)
                            -- non-200 status with a Content-Length AND `Connection: close`: the peer closes afterwards
+  | okBody (text : OkText) (fr : Framing)
+                           -- HEALTHY: 200 + own result, the JSON text spelled / sized / coded as `text`, framed as `fr`
+  | badBody200 (text : BadText) (fr : Framing)
+                           -- 200 whose body is not JSON text (`nonJson200` is `badBody200 .html .length`)
 deriving Repr, DecidableEq
 
 /-- The status of a bodiless reply. -/
@@ -186,6 +231,9 @@ deriving Repr, DecidableEq
 /-- After a non-success reply that announces a length: drained (reusable) or left unread. -/
 def afterLength (lib : Lib) (c : Conn) : Cache :=
   if lib.drain then some c else some { c with pending := true }
+
+/-- After a 200 reply read to its end: the connection as it was, or none when the reply ends it. -/
+def afterOk (fr : Framing) (c : Conn) : Cache := if fr.keeps then some c else none
 
 /-- Surplus bytes sent after a pause stay unread on the connection; in the segment of the last body byte they are read
     ahead and discarded with the response. -/
@@ -261,6 +309,11 @@ def exchange (lib : Lib) (c : Conn) (tok : Nat) (b : Beh) : Att :=
     -- `Connection: close`: http.client hands the socket over to the response (will_close) and forgets it; the cached
     -- HTTPConnection reconnects on its next use — read or unread, nothing of this exchange can reach a later call
     | .statusLenClose code _ => .done (.transportError code.n) none
+    -- the whole body (to the announced number of BYTES, to the last chunk, to the close) is joined, decoded once as
+    -- UTF-8 (after gzip decoding when announced) and parsed: the result of this call, whatever the text looks like
+    | .okBody _ fr => .done (.result tok) (afterOk fr c)
+    -- strict decoding / parsing fails: ValueError (UnicodeDecodeError, JSONDecodeError) after a clean exchange
+    | .badBody200 _ fr => .done (.other "decode") (afterOk fr c)
 
 /-- `single_request` on the cached connection (or a new one). Returns the attempt's result and the
     behaviours the peer has not consumed. -/
@@ -322,10 +375,12 @@ def Beh.framed : Beh → Bool
 def Reply.healthy (r : Reply) : Bool :=
   (firstOther r.infos).isNone && (match r.final with | .ok .exact => true | _ => false)
 
-/-- Healthy exchanges. -/
+/-- Healthy exchanges: the reply holds the call's own result as well-formed JSON text — whatever characters it
+    holds, however they are spelled, however long it is, gzip-coded or not, however it is framed. -/
 def Beh.healthy : Beh → Bool
   | .okKeep => true
   | .okClose => true
+  | .okBody _ _ => true
   | .scripted r => r.healthy
   | _ => false
 
